@@ -18,6 +18,8 @@ package preempt
 //@ func buildFilterFuncForPreempt$1
 //@   props C06 C05
 //@   requires job != nil && preemptor != nil && ssn != nil
+//@   # registered plugin filters are real functions (AddPreemptVictimFilterFn appends plugin methods only)
+//@   requires forall i int :: 0 <= i && i < len(ssn.PreemptVictimFilterFns) ==> ssn.PreemptVictimFilterFns[i] != nil
 //@   # data invariant of PodGroupInfo: the cached count exists and is a count
 //@   requires job.activeAllocatedCount != nil && *job.activeAllocatedCount >= 0
 //@   modifies job.activeAllocatedCount
